@@ -1,5 +1,6 @@
 import BSModel.Driver.Util
 import BSModel.Model.Formatter
+import BSModel.Model.FormatterBuild
 import BSModel.Gen.Formatter
 /-! line protocol of C15 (formatters)
 
@@ -152,6 +153,66 @@ def showOut : Out → String
   | .keyError => "KeyError"
   | .badReceiver => "bad-receiver"
 
+/-! raw trees and builder configurations (op `build`)
+
+    c15 build <eet> <pwt> <cla> <ondup> <rawtree>     the built tree, in the `tree` syntax above
+    eet   := N | E | <cps>;<cps>…        pwt := E | <cps>;…      ondup := r | i
+    cla   := E | <key>=<cps>;<cps>…|<key>=…   (a value may be E for the empty set)
+    rawtree := S <kind> <cps> | T <name> <nattrs> (<key> <N|v<cps>|v->)*nattrs <nkids> rawtree*nkids -/
+
+def parseCla (s : String) : List (PStr × List PStr) :=
+  if s == "E" then [] else (s.splitOn "|").filterMap fun e => match e.splitOn "=" with
+    | [k, v] => some (pcps k, parseNames v)
+    | _ => none
+
+def parseRawAttrs : Nat → List String → Option (List (PStr × Option PStr) × List String)
+  | 0, rest => some ([], rest)
+  | n + 1, k :: v :: rest =>
+    match parseRawAttrs n rest with
+    | some (as, rest') => some ((pcps k, if v == "N" then none else some (pcps (v.drop 1).toString)) :: as, rest')
+    | none => none
+  | _ + 1, _ => none
+
+mutual
+def parseRaw : Nat → List String → Option (RawNode × List String)
+  | 0, _ => none
+  | _ + 1, "S" :: k :: v :: rest => some (.str (parseKind k) (pcps v), rest)
+  | f + 1, "T" :: nm :: na :: rest =>
+    match parseRawAttrs na.toNat! rest with
+    | some (as, nk :: rest') =>
+      match parseRawKids f nk.toNat! rest' with
+      | some (ks, rest'') => some (.tag (pcps nm) as ks, rest'')
+      | none => none
+    | _ => none
+  | _ + 1, _ => none
+def parseRawKids : Nat → Nat → List String → Option (List RawNode × List String)
+  | 0, _, _ => none
+  | _ + 1, 0, rest => some ([], rest)
+  | f + 1, n + 1, rest =>
+    match parseRaw f rest with
+    | some (k, rest') =>
+      match parseRawKids f n rest' with
+      | some (ks, rest'') => some (k :: ks, rest'')
+      | none => none
+    | none => none
+end
+
+def showVal : AttrVal → String
+  | .none => "N"
+  | .str s => "s" ++ showP s
+  | .list l => "l" ++ (if l.isEmpty then "-" else ";".intercalate (l.map showP))
+
+mutual
+def showNode : Node → List String
+  | .str k v => ["S", toString k.code, showP v]
+  | .tag n p as cbe pre ks =>
+    ["T", showP n, showP p, bit cbe, bit pre, toString as.length] ++ as.flatMap (fun kv => [showP kv.1, showVal kv.2])
+      ++ [toString ks.length] ++ showNodes ks
+def showNodes : List Node → List String
+  | [] => []
+  | k :: ks => showNode k ++ showNodes ks
+end
+
 def doRun (isXml : Bool) (fmt mode parent ng : String) (rest : List String) : String :=
     match parseFmt fmt with
     | none => "bad-fmt"
@@ -189,6 +250,13 @@ def handle : List String → String
     let ch : List (Option Bool) := (chain.splitOn ",").filterMap fun t =>
       if t == "N" then some none else if t == "1" then some (some true) else if t == "0" then some (some false) else none
     doRun (isXmlOf ch (rootAttr == "1")) fmt mode parent ng rest
+  | "build" :: eet :: pwt :: cla :: od :: tt =>
+    let b : BuilderCfg := { emptyElementTags := if eet == "N" then none else some (parseNames eet),
+                            preserveWhitespaceTags := parseNames pwt, cdataListAttributes := parseCla cla,
+                            onDuplicate := if od == "i" then .ignore else .replace }
+    match parseRaw (tt.length + 1) tt with
+    | some (t, []) => " ".intercalate (showNode (build b t))
+    | _ => "bad-tree"
   | ["subst", "x", s] => showP (substXml (pcps s))
   | ["subst", "h", s] => showP (reSub BS.Gen.htmlAlts (pcps s))
   | ["substrev", s] => showP (reSub BS.Gen.htmlAlts.reverse (pcps s))
